@@ -23,6 +23,10 @@ func checkC05(p *Prog, r *Report) {
 	c05CropFlag(p, r)
 	c05Columns(p, r)
 	c05EndWriters(p, r)
+	// consecutive dates with correct leap days rest on the date arithmetic (shared with C12.R1/R2)
+	c12Tables(p, r, "C05.R5a")
+	c12Leap(p, r, "C05.R5b")
+	c12LeapThreshold(p, r)
 }
 
 // outputRoles maps the OutputConfig variables of the run closure to the
